@@ -236,3 +236,209 @@ func c13LiteralScanStopsAtEnd(ctx *core.Ctx, r *core.Report) {
 	r.Floor("lexer-cycle-advances(xpath read loops)", n, 2)
 	_ = types.Typ
 }
+
+// c11EachIfFeatureKept: every if-feature statement of a node is stored as its own
+// IfFeature: Builder.IfFeature never writes into the expression of one that is
+// already there (gluing the texts with " and " changes the grouping of an `or`
+// inside one of them).
+func c11EachIfFeatureKept(ctx *core.Ctx, r *core.Report) {
+	f := ctx.Method("meta", "Builder", "IfFeature")
+	iff := ctx.Named("meta", "IfFeature")
+	if f == nil || iff == nil {
+		r.Fatalf("anchors meta.Builder.IfFeature / meta.IfFeature not found")
+		return
+	}
+	ok := true
+	pos := ctx.Pos(f.Pos())
+	core.Instrs(f, func(_ *ssa.BasicBlock, in ssa.Instruction) {
+		st, isSt := in.(*ssa.Store)
+		if !isSt {
+			return
+		}
+		fa, isFa := st.Addr.(*ssa.FieldAddr)
+		if !isFa || core.NamedOf(fa.X.Type()) != iff {
+			return
+		}
+		// a store into an IfFeature that was not allocated here
+		if _, fresh := core.Strip(fa.X).(*ssa.Alloc); !fresh {
+			ok = false
+			pos = ctx.Pos(st.Pos())
+		}
+	})
+	r.Ob("each-if-feature-kept", "meta.Builder.IfFeature", pos, ok,
+		"Builder.IfFeature rewrites an if-feature that is already stored instead of adding the new statement as its own: texts glued with \" and \" regroup an `or` inside one of them (`a or b` and `c` becomes a or (b and c))")
+}
+
+// c11DeviationCheckByCapability: checkDeviationTarget decides by what the target
+// can carry (the HasDetails/HasListDetails/Leafable/HasMusts capabilities handed in,
+// plus *List and *Any), not by a node-kind helper: IsLeaf is true for leaves,
+// leaf-lists and anydata but not for a choice, which also takes `mandatory`.
+func c11DeviationCheckByCapability(ctx *core.Ctx, r *core.Report) {
+	f := ctx.Method("meta", "resolver", "checkDeviationTarget")
+	if f == nil {
+		r.Fatalf("anchor meta.resolver.checkDeviationTarget not found")
+		return
+	}
+	bad := ""
+	for _, c := range core.CallSites(f) {
+		if cal := core.StaticCallee(c); cal != nil && core.FnPkgPath(cal) == core.Full("meta") && strings.HasPrefix(cal.Name(), "Is") && cal.Signature.Params().Len() == 1 {
+			bad = cal.Name()
+		}
+	}
+	r.Ob("deviation-field-coverage", "meta.resolver.checkDeviationTarget/by-capability", ctx.Pos(f.Pos()), bad == "",
+		"checkDeviationTarget refuses a property by node kind (meta."+bad+") instead of by the capability interfaces: a legal deviation — mandatory on a choice — fails the whole load")
+}
+
+// c14PoolCoversEveryHolder: compiler.compile remembers every node that holds data
+// definitions before it descends into it (c.pool): that is what stops the
+// descent when a recursive grouping leads back to a node — whatever kind of node
+// the cycle passes through (a choice and its case have no container in between).
+func c14PoolCoversEveryHolder(ctx *core.Ctx, r *core.Report) {
+	n := 0
+	for _, f := range scopeFuncs(ctx, "meta", "compile.go") {
+		core.Instrs(f, func(b *ssa.BasicBlock, in ssa.Instruction) {
+			mu, ok := in.(*ssa.MapUpdate)
+			if !ok {
+				return
+			}
+			if _, fld, _, isField := mapFieldOf(mu.Map); !isField || fld != "pool" {
+				return
+			}
+			n++
+			narrowed := ""
+			for _, pc := range core.PathConds(b) {
+				if ex, isEx := pc.V.(*ssa.Extract); isEx {
+					if ta, isTa := ex.Tuple.(*ssa.TypeAssert); isTa && !strings.HasSuffix(core.TypeName(ta.AssertedType), "HasDataDefinitions") {
+						narrowed = core.TypeName(ta.AssertedType)
+					}
+				}
+				// a type switch compiles to a chain of comma-ok asserts; also catch typeswitch on concrete kinds via BinOp on type tags is not used by go/ssa
+			}
+			// inside a helper whose parameter is already narrowed by a type switch in this function
+			core.Instrs(f, func(_ *ssa.BasicBlock, in2 ssa.Instruction) {
+				if ta, isTa := in2.(*ssa.TypeAssert); isTa && ta.CommaOk {
+					t := core.TypeName(ta.AssertedType)
+					if (strings.HasSuffix(t, "meta.Container") || strings.HasSuffix(t, "meta.List")) && f.Name() != "compile" {
+						narrowed = t
+					}
+				}
+			})
+			r.Ob("guard-backing", core.FnName(f)+"/pool-marks-every-holder", ctx.Pos(mu.Pos()), narrowed == "",
+				"the set of nodes already compiled is filled only for some node kinds ("+narrowed+"): a recursive grouping whose cycle passes through other holders only (a choice and its case) is descended into for ever and the load ends in a stack overflow")
+		})
+	}
+	r.Floor("guard-backing(compile pool)", n, 1)
+}
+
+// c18ExistingEntryIsNotEmpty: nodeutil.reflectIsEmpty is consulted by the list
+// handlers for every entry (getKey, DoGetByRow), not only under the IgnoreEmpty
+// option: it calls a pointer empty only when it is nil — a pointer to a struct
+// whose fields are all zero (key 0, nothing else set) is an entry that exists.
+func c18ExistingEntryIsNotEmpty(ctx *core.Ctx, r *core.Report) {
+	f := ctx.Fn("nodeutil", "reflectIsEmpty")
+	if f == nil {
+		r.Fatalf("anchor nodeutil.reflectIsEmpty not found")
+		return
+	}
+	bad := false
+	for _, c := range core.CallSites(f) {
+		cal := core.StaticCallee(c)
+		if cal == nil || core.FnName(cal) != "reflect.Value.IsZero" {
+			continue
+		}
+		// the receiver derives from Elem(): the pointed-to value
+		recv := c.Common().Args[0]
+		seen := map[ssa.Value]bool{}
+		var walk func(v ssa.Value) bool
+		walk = func(v ssa.Value) bool {
+			if v == nil || seen[v] {
+				return false
+			}
+			seen[v] = true
+			switch x := v.(type) {
+			case *ssa.Call:
+				if cc := core.StaticCallee(x); cc != nil && core.FnName(cc) == "reflect.Value.Elem" {
+					return true
+				}
+			case *ssa.Phi:
+				for _, e := range x.Edges {
+					if walk(e) {
+						return true
+					}
+				}
+			case *ssa.UnOp:
+				if al, ok := x.X.(*ssa.Alloc); ok {
+					for _, ref := range *al.Referrers() {
+						if st, ok := ref.(*ssa.Store); ok && st.Addr == ssa.Value(al) && walk(st.Val) {
+							return true
+						}
+					}
+				}
+				return walk(x.X)
+			}
+			return false
+		}
+		if walk(recv) {
+			bad = true
+		}
+	}
+	r.Ob("existing-entry-is-not-empty", "nodeutil.reflectIsEmpty", ctx.Pos(f.Pos()), !bad,
+		"reflectIsEmpty calls a pointer to an all-zero struct empty: the list handlers use it for every entry, so the entry with key 0 (or \"\") and nothing else set is not found by key, cannot be deleted, is duplicated by an upsert, and ends a walk early")
+}
+
+// c18ClearZeroes: the struct-backed container handler clears a member by zeroing
+// the Go field (the field handler's clear). Storing an empty but non-nil slice
+// instead leaves a list that DoGetChild still reports as present.
+func c18ClearZeroes(ctx *core.Ctx, r *core.Report) {
+	f := ctx.Method("nodeutil", "structAsContainer", "clear")
+	if f == nil {
+		r.Fatalf("anchor nodeutil.structAsContainer.clear not found")
+		return
+	}
+	clears, sets := 0, 0
+	for _, c := range core.CallSites(f) {
+		name := ""
+		if m := core.IfaceMethod(c); m != nil {
+			name = m.Name()
+		} else if cal := core.StaticCallee(c); cal != nil {
+			name = cal.Name()
+		}
+		switch name {
+		case "clear":
+			clears++
+		case "set", "MakeSlice", "MakeMap":
+			sets++
+		}
+	}
+	r.Ob("delete-addresses-selection", "nodeutil.structAsContainer.clear/zeroes-the-field", ctx.Pos(f.Pos()), clears >= 1 && sets == 0,
+		"clearing a member of a struct-backed node stores a new empty value instead of zeroing the field: a deleted list is an empty non-nil slice, which the node still reports as an existing list (Find sees it, ReplaceFrom fails with a conflict)")
+}
+
+// c17IndexNilOnError: Reflect.buildKeys hands back no index at all when reading a
+// key fails (nil with the error). The list node stores what buildKeys returns as
+// its cached index before it looks at the error; a half-filled, unsorted index
+// kept that way answers every later lookup through the node wrongly.
+func c17IndexNilOnError(ctx *core.Ctx, r *core.Report) {
+	f := ctx.Method("nodeutil", "Reflect", "buildKeys")
+	if f == nil {
+		r.Fatalf("anchor nodeutil.Reflect.buildKeys not found")
+		return
+	}
+	n := 0
+	for _, ret := range core.Returns(f) {
+		if mayBeSuccess(ret) {
+			continue
+		}
+		n++
+		ops := core.RetOperands(ret)
+		isNil := true
+		for _, leaf := range core.PhiLeaves(ops[0], ret.Block()) {
+			if !core.IsNilConst(leaf.V) {
+				isNil = false
+			}
+		}
+		r.Ob("cache-dropped-on-mutation", fmt.Sprintf("nodeutil.Reflect.buildKeys/error-return#%d", n), ctx.Pos(ret.Pos()), isNil,
+			"buildKeys returns a partly built index together with an error: the list node has already stored it as its cached index, so after one failed lookup existing entries are reported absent and an upsert creates a duplicate key")
+	}
+	r.Floor("cache-dropped-on-mutation(buildKeys error returns)", n, 1)
+}
